@@ -36,9 +36,7 @@ ReachD(n, og) == [kind |-> "reach", n |-> n, og |-> og, a |-> <<0, FALSE>>, b |-
 DiffD(da, db) == [kind |-> "diff", n |-> da.n + db.n, og |-> FALSE, a |-> <<da.n, da.og>>, b |-> <<db.n, db.og>>]
 OrigSet(og) == IF og THEN Zeros(W, C) ELSE {}
 ReachTab == mem
-DenT(T, d) == IF d.kind = "reach" THEN T[d.n] \cup OrigSet(d.og)
-              ELSE DiffSet(T[d.a[1]] \cup OrigSet(d.a[2]), T[d.b[1]] \cup OrigSet(d.b[2]))
-DenD(d) == DenT(ReachTab, d)
+DenD(d) == DenT(W, C, ReachTab, d)
 
 Init == /\ desc = [o \in Obj |-> ReachD(0, FALSE)]
         /\ st = [o \in Obj |-> {}]
@@ -119,7 +117,7 @@ AllDescs ==
 Theorems ==
   LET T == [n \in 0..MaxN |-> Reach(J, n)]
       GG == G
-      DT == [d \in AllDescs |-> DenT(T, d)]
+      DT == [d \in AllDescs |-> DenT(W, C, T, d)]
   IN /\ NetworkOK(W, C, GG, J)                                             \* InputOK
      /\ \A d \in AllDescs : DT[d] = Den(W, C, J, d)                        \* DenotationAgrees
      /\ \A d \in AllDescs : Closed(W, C, GG, DT[d])                        \* AllDenotationsClosed
